@@ -430,14 +430,27 @@ func genCase(t *rapid.T) *Case {
 		}
 		p := Prog{Status: rapid.SampledFrom(statuses).Draw(t, "status"), StatusAfterBody: rapid.Bool().Draw(t, "statusAfterBody")}
 		p.Mode = rapid.IntRange(0, nModes-1).Draw(t, "mode")
-		// (a handler that streams through the chunked writer does so for HEAD as for GET, and may answer 204/304:
-		// the statement makes no exception; an earlier version of this generator did)
+		lateBodiless := false
+		if p.Mode == mChunkedWriter && wire.Bodiless(r.Method, p.Status) {
+			// documented exclusion (the property's quantifier): the hijacked chunked writer is not INSTALLED on a response
+			// that may not have a body. What remains inside: the writer is installed while the response is a 200 to a
+			// GET/POST, nothing is written, and the status becomes 204/304/1xx afterwards (ctx.AbortWithStatus(304), a
+			// conditional-request check behind the streaming set-up).
+			if r.Method == "HEAD" || rapid.Bool().Draw(t, "writerExcludedNotLate") {
+				p.Mode = rapid.IntRange(0, mChunkedWriter-1).Draw(t, "modeInsteadOfChunkedWriter")
+			} else {
+				lateBodiless = true
+			}
+		}
 		if p.Mode == mChunkedWriter {
-			p.StatusAfterBody = false // the header goes out with the first Write
+			p.StatusAfterBody = lateBodiless // otherwise the header goes out with the first Write
 		}
 		p.ModeName = modeNames[p.Mode]
 		if p.Mode != mNone {
 			p.Size = gen.BodyLen(t, "size", false)
+		}
+		if lateBodiless {
+			p.Size = 0 // nothing written: the header block has not left when the status changes
 		}
 		p.Salt = byte(rapid.IntRange(0, 255).Draw(t, "salt"))
 		p.Flavor = rapid.IntRange(0, 8).Draw(t, "flavor")
@@ -562,10 +575,6 @@ func TestC04Programs(t *testing.T) {
 				rec.Excluded("D120-limited-reader-whose-limit-exceeds-the-source", 1)
 				return
 			}
-			if inD154(c) && ev.ReportKnown(prop, "D154") {
-				rec.Excluded("D154-HEAD-handler-resets-the-response-then-streams-through-the-chunked-writer", 1)
-				return
-			}
 			if inD92(c) && ev.ReportKnown(prop, "D92") {
 				rec.Excluded("D92-response-replaced-after-the-chunked-writer-has-sent-the-header", 1)
 				return
@@ -580,18 +589,6 @@ func TestC04Programs(t *testing.T) {
 			rec.Sample(c)
 		}
 	})
-}
-
-// inD154: known finding D154. The answer to HEAD is marked bodiless on the Response before the handler runs;
-// a handler that starts with ctx.Response.Reset() wipes the mark, and the chunked writer, which sees nothing
-// but the Response, then sends its chunks behind the header block of a HEAD response.
-func inD154(c *Case) bool {
-	for i, p := range c.Progs {
-		if p.Mode == mChunkedWriter && p.ResetFirst && c.Reqs[i].Method == "HEAD" && p.Size > 0 {
-			return true
-		}
-	}
-	return false
 }
 
 // inD48: known finding D48. A handler sets a status that cannot have a body (1xx, 204, 304), then the
@@ -644,7 +641,9 @@ func TestC04Grid(t *testing.T) {
 				for _, proto := range []string{"HTTP/1.1", "HTTP/1.0"} {
 					for _, size := range sizes {
 						for _, after := range []bool{false, true} {
-							if mode == mChunkedWriter && after {
+							// chunked writer: installed on a response that may have a body (the property's documented exclusion);
+							// status after the body phase only in the shape "installed under 200, nothing written, then 204/304/1xx"
+							if mode == mChunkedWriter && (method == "HEAD" || after != wire.Bodiless(method, st) || (after && size != 0)) {
 								continue
 							}
 							if mode == mNone && size != 0 {
